@@ -106,45 +106,88 @@ def parse_psl_text(text):
     return public, private
 
 
-def render_psl_text(public, private, puny_comments=()):
+def _fmt_rule(rule, i, fmt):
+    if fmt.get("pad"):
+        return ("  ", "\t", "")[i % 3] + rule + (" ", "", "  \t")[i % 3]
+    return rule
+
+
+def _puny_comment(rule):
+    """'// xn--… (comment) : XX' as the real list announces the A-label spelling
+    of a Unicode rule, or None."""
+    if not any(ord(ch) > 127 for ch in rule) or rule.startswith(("!", "*")):
+        return None
+    try:
+        a = ".".join(l.encode("idna").decode("ascii") if any(ord(c) > 127 for c in l) else l for l in rule.split("."))
+    except UnicodeError:
+        return None
+    if not a.startswith("xn--") or a == rule:
+        return None
+    return '// %s ("Example", Script) : ZZ' % a
+
+
+def render_psl_text(public, private, fmt=None):
+    """The list file as the origin serves it. fmt varies what a valid file may
+    vary: CRLF line ends, blanks around rules, no final newline, and the
+    '// xn--…' comment lines that announce the A-label spelling of a rule."""
+    fmt = fmt or {}
+    markers = not fmt.get("nomarkers")
     lines = [
         "// This Source Code Form is subject to the terms of the Mozilla Public",
         "// License, v. 2.0.",
         "",
-        "// ===BEGIN ICANN DOMAINS===",
-        "",
     ]
+    if markers:
+        lines += ["// ===BEGIN ICANN DOMAINS===", ""]
+    n = 0
     for i, rule in enumerate(public):
         if i % 7 == 3:
             lines.append("")
             lines.append("// section %d : https://example.org/registry" % i)
-        lines.append(rule)
+        if fmt.get("puny"):
+            c = _puny_comment(rule)
+            if c is not None:
+                lines.append(c)
+        lines.append(_fmt_rule(rule, n, fmt))
+        n += 1
     lines.append("")
-    lines.append("// ===END ICANN DOMAINS===")
-    lines.append("// ===BEGIN PRIVATE DOMAINS===")
-    lines.append("// (Note: these are in alphabetical order by company name)")
-    for i, rule in enumerate(private):
+    if markers:
+        lines.append("// ===END ICANN DOMAINS===")
+        lines.append("// ===BEGIN PRIVATE DOMAINS===")
+        lines.append("// (Note: these are in alphabetical order by company name)")
+    # the section markers are comments: a rule after the last one is a rule
+    tail = list(private[-1:]) if fmt.get("tail") and markers else []
+    for i, rule in enumerate(private[: len(private) - len(tail)]):
         if i % 5 == 0:
             lines.append("")
             lines.append("// Company %d : https://example.com/" % i)
             lines.append("// Submitted by Someone <someone@example.com>")
-        lines.append(rule)
+        lines.append(_fmt_rule(rule, n, fmt))
+        n += 1
     lines.append("")
-    lines.append("// ===END PRIVATE DOMAINS===")
-    return "\n".join(lines) + "\n"
+    if markers:
+        lines.append("// ===END PRIVATE DOMAINS===")
+    for rule in tail:
+        lines.append("")
+        lines.append(_fmt_rule(rule, n, fmt))
+        n += 1
+    eol = "\r\n" if fmt.get("crlf") else "\n"
+    return eol.join(lines) + ("" if fmt.get("nofinal") else eol)
 
 
-def render_tld_text(tlds):
+def render_tld_text(tlds, fmt=None):
     """tlds-alpha-by-domain.txt as IANA serves it: upper-case A-labels only."""
-    lines = []
+    fmt = fmt or {}
+    lines = ["# Version 2026100300, Last Updated Sat Oct  3 07:07:01 2026 UTC"]
     for t in tlds:
         if any(ord(ch) > 127 for ch in t):
             try:
                 t = t.encode("idna").decode("ascii")
             except UnicodeError:
                 continue
-        lines.append(t.upper() + "\n")
-    return "# Version 2026100300, Last Updated Sat Oct  3 07:07:01 2026 UTC\n" + "".join(lines)
+        lines.append(t.upper())
+    eol = "\r\n" if fmt.get("crlf") else "\n"
+    return eol.join(lines) + ("" if fmt.get("nofinal") else eol)
 
 
 def render_data_module(public, private, tlds):
